@@ -158,6 +158,13 @@ class C20(Check):
         # "reports how many it removed": any integer on a stdout line that names no path (the wording is free)
         nums = [int(x) for l in res.out.split("\n") if "/" not in l and not any(n in l for n in NAMES)
                 for x in re.findall(r"(?<![\w.])\d+(?![\w.])", l)]
+        # none of the explored trees contains anything `clean` cannot handle (no permissions, no races): it must succeed on each,
+        # directories and sub-directories being none of its business
+        if res.cls == "error":
+            left = [p for p in allowed if p in after]
+            viol.append({"sig": {"kind": "gave-up", "kinds": ",".join(sorted({kd for n, kd in ents if has_mmm_ext(n)}))},
+                         "what": f"clean stopped with an error (exit {res.exit}: {res.err.strip()[-120:]!r}) leaving bytecode files {sorted(left)}",
+                         "detail": detail})
         if res.exit == 0:
             left = [p for p in allowed if p in after]
             if left:
